@@ -896,6 +896,41 @@ inline J random_filter(Rng& r, const model::MLib& m) {
     return f;
 }
 
+// a filter together with the way it is built: extra tags (close relatives of the wanted ones: same layer, next
+// type, ...) are added in between and deleted again before the set is used
+inline void filter_with_build(Rng& r, J& o, const J& filter) {
+    o.set("filter", filter);
+    if (filter.k != J::Arr || !r.chance(0.35)) return;
+    std::vector<std::array<int64_t, 3>> all;
+    std::set<std::pair<int64_t, int64_t>> wanted;
+    for (auto& t : filter.a) wanted.insert({t.a[0].i, t.a[1].i});
+    for (auto& w : wanted) all.push_back({w.first, w.second, 1});
+    int extra = (int)r.range(1, 6);
+    std::set<std::pair<int64_t, int64_t>> gone;
+    for (int i = 0; i < extra * 4 && (int)gone.size() < extra; i++) {
+        std::pair<int64_t, int64_t> e;
+        if (!wanted.empty() && r.chance(0.6)) {
+            auto it = wanted.begin();
+            std::advance(it, (long)r.below(wanted.size()));
+            e = {it->first + (int64_t)r.range(-2, 2), it->second + (int64_t)r.range(-2, 2)};
+        } else {
+            e = {(int64_t)r.below(12), (int64_t)r.below(12)};
+        }
+        if (e.first < 0 || e.second < 0 || wanted.count(e) || !gone.insert(e).second) continue;
+        all.push_back({e.first, e.second, 0});
+    }
+    for (size_t i = all.size(); i > 1; i--) std::swap(all[i - 1], all[r.below(i)]);
+    J b = J::arr();
+    for (auto& t : all) {
+        J e = J::arr();
+        e.push(t[0]);
+        e.push(t[1]);
+        e.push(t[2]);
+        b.push(e);
+    }
+    o.set("filter_build", b);
+}
+
 inline J plan_c17(uint64_t verif_seed, uint64_t index, int tier) {
     uint64_t rs = run_seed(verif_seed, index);
     Rng root(rs);
@@ -1100,7 +1135,7 @@ inline J plan_c17(uint64_t verif_seed, uint64_t index, int tier) {
                         J e = J::obj();
                         e.set("canon", "FULL");
                         o.set("expect", e);
-                        o.set("filter", random_filter(rsch, m));
+                        filter_with_build(rsch, o, random_filter(rsch, m));
                         ops.push(o);
                     } break;
                     case 4: {
@@ -1112,7 +1147,7 @@ inline J plan_c17(uint64_t verif_seed, uint64_t index, int tier) {
                         // (2e-9, 5e-9, 1e-10, 1.001e-6: close to the units files really have, without being them)
                         static const double units[] = {1e-6, 1e-9, 1e-3, 2.5e-7, 1.0, 2.54e-5, 2e-9, 5e-9, 1e-10, 1.001e-6};
                         o.set("unit", units[rsch.below(10)]);
-                        if (rsch.chance(0.3)) o.set("filter", random_filter(rsch, m));
+                        if (rsch.chance(0.3)) filter_with_build(rsch, o, random_filter(rsch, m));
                         ops.push(o);
                     } break;
                     default: {
